@@ -33,12 +33,8 @@ impl Stage {
             Stage::MulConst(c) => input.iter().map(|x| x.wrapping_mul(*c)).collect(),
             Stage::Skip(n) => input.iter().skip(*n).copied().collect(),
             Stage::Delay(n) => {
-                if input.is_empty() {
-                    // Documented behaviour is "delay the stream"; with no input
-                    // at all nothing defines how many zeros come out. Specs for
-                    // runner checks avoid this case.
-                    return vec![];
-                }
+                // With no input at all nothing defines how many zeros come
+                // out; see GraphSpec::degenerate().
                 let mut v = vec![0u64; *n];
                 v.extend_from_slice(input);
                 v
@@ -145,6 +141,30 @@ impl GraphSpec {
             Shape::Diamond(a, b) => 4 + a.is_some() as usize + b.is_some() as usize,
             Shape::Merge(_) => 4,
             Shape::Packets(_) => 5,
+        }
+    }
+    /// Programs whose result the documentation does not pin down, or that
+    /// cannot work at all: a Delay stage that never gets any input (does it
+    /// owe its leading zeros?), a packet larger than the stream it has to be
+    /// written to.
+    pub fn degenerate(&self) -> bool {
+        let src = self.source_data();
+        let chain_has_starved_delay = |st: &[Stage], mut v: Vec<u64>| {
+            for s in st {
+                if matches!(s, Stage::Delay(_)) && v.is_empty() {
+                    return true;
+                }
+                v = s.spec(&v);
+            }
+            false
+        };
+        match &self.shape {
+            Shape::Chain(st) => chain_has_starved_delay(st, src),
+            Shape::Tee(a, b) | Shape::Diamond(a, b) => {
+                a.iter().chain(b.iter()).any(|s| chain_has_starved_delay(std::slice::from_ref(s), src.clone()))
+            }
+            Shape::Merge(_) => false,
+            Shape::Packets(k) => *k > self.per_page * self.pages,
         }
     }
     pub fn source_data(&self) -> Vec<u64> {
